@@ -47,8 +47,10 @@ fn delay_for(cfg: &Cfg, attempt: usize) -> u64 {
 }
 
 pub fn gen(rng: &mut Prng) -> Cfg {
-    let max = rng.range(1, 4) as usize;
-    let delay = match rng.below(10) {
+    // now and then a wide fan-out: more attempts than any small internal buffer would hold
+    let wide = rng.chance(0.05);
+    let max = if wide { rng.range(17, 24) as usize } else { rng.range(1, 4) as usize };
+    let delay = match if wide { 5 + rng.below(2) * 4 - rng.below(2) * 4 } else { rng.below(10) } {
         0 => Delay::Default,
         1..=4 => Delay::Fixed(*rng.pick(&[0u64, 10_000, 50_000])),
         5..=6 => Delay::NoDelay,
@@ -88,7 +90,14 @@ pub fn gen(rng: &mut Prng) -> Cfg {
                 };
                 (lat, !rng.chance(fail_bias))
             })
-            .collect();
+            .collect::<Vec<_>>();
+        let script = if wide {
+            // a burst of immediate results, the one success (if any) among the late ones
+            let ok_at = if rng.chance(0.8) { Some(max - 1 - rng.below(3) as usize) } else { None };
+            (0..max).map(|k| (if rng.chance(0.8) { Lat::Us(0) } else { Lat::Us(d) }, Some(k) == ok_at)).collect()
+        } else {
+            script
+        };
         reqs.push((rng.below(3) * 3000, script));
     }
     let stall = if rng.chance(0.3) {
